@@ -69,6 +69,18 @@ instance instCElemInt64 : CElem Int64 where
   mul a b := checked (-9223372036854775808) 9223372036854775807 Int64.ofInt (a.toInt * b.toInt)
   eq a b := a == b
 
+/-- what gcc on x86-64 computes where ISO C leaves the integer element types open: `+ - *` wrap around at the element width (two's
+    complement; undefined behaviour in ISO C, UBSan aborts the C side) and the conversion to `int` keeps the low 32 bits
+    (implementation-defined).  The translator uses it ONLY for an integer-typed expression returned as `int`, i.e. the comparator idiom
+    `return x1 - x2;` — which the present source does not contain: the three-way `if` comparators need none of this. -/
+class CWrap (α : Type) where
+  wadd : α → α → α
+  wsub : α → α → α
+  wmul : α → α → α
+  toCInt : α → Int
+instance : CWrap Int32 := ⟨(· + ·), (· - ·), (· * ·), Int32.toInt⟩
+instance : CWrap Int64 := ⟨(· + ·), (· - ·), (· * ·), fun x => x.toInt32.toInt⟩
+
 /-- `int16_t` / `int8_t` / `char` cells are only moved (Copy, Reverse): no arithmetic -/
 instance instCElemUInt8 : CElem UInt8 where
   lt a b := decide (a < b)
